@@ -9,6 +9,7 @@
 -/
 import EasyMl.Props.C02
 import EasyMl.Props.C12
+import EasyMl.Lemmas.SurvivorViews
 
 namespace EasyMl.C10
 open EasyMl EasyMl.Spec EasyMl.View
@@ -52,5 +53,57 @@ theorem view_unchecked_inBounds_matrix (e : MatrixView.MExpr) (hle : e.LeavesOk)
     (hi : i < e.size.1) (hj : j < e.size.2) :
     ∃ o, v.view.get i j = .ok (some o) ∧ v.uget i j = .ok o :=
   C12.mview_unchecked_eq_checked e hle v hv i j hi hj
+
+/-! ## stack / chain constructors reject sources whose dimension order is permuted -/
+
+/-- **`TensorStack::from` / `TensorChain::from` (every tuple arity and the array form: the model's
+    `mkStack` / `mkChain` over the list of sources) reject a source whose shape is the first
+    source's with the dimensions in another order** — for a stack any source whose shape differs
+    from the first one's at all, for a chain any source whose dimension names, read in order,
+    differ from the first one's (whatever the lengths: the comparison is positional, not a lookup
+    by name).  The statement seeded changes C10-r4m2 (name lookup) and C10-r3m1 (a source never
+    compared) falsify. -/
+theorem zip_constructor_rejects_permuted [Inhabited ν] (ss : List (View ν α)) (first : Shape ν)
+    (rest : List (Shape ν)) (hs : shapes ss = first :: rest) :
+    (∀ along, (∃ s ∈ rest, s ≠ first) → mkStack ss along = none) ∧
+      (∀ along, (∃ s ∈ rest, s.map (·.1) ≠ first.map (·.1)) → mkChain ss along = none) := by
+  constructor
+  · rintro along ⟨s, hmem, hne⟩
+    unfold mkStack
+    rw [hs]
+    simp only
+    split
+    · rfl
+    · split
+      · rfl
+      · have : rest.any (· ≠ first) = true := List.any_eq_true.2 ⟨s, hmem, by simpa using hne⟩
+        rw [if_pos this]
+  · rintro along ⟨s, hmem, hne⟩
+    unfold mkChain
+    rw [hs]
+    simp only
+    split
+    · rfl
+    · split
+      · rfl
+      · rename_i a _
+        have hbad : (!(decide (s.length = first.length) && similarGo a 0 s first)) = true := by
+          by_cases hl : s.length = first.length
+          · cases hsim : similarGo a 0 s first with
+            | false => simp
+            | true => exact absurd (similarGo_names a s first 0 hl hsim) hne
+          · simp [hl]
+        have : rest.any (fun s => !(decide (s.length = first.length) && similarGo a 0 s first)) = true :=
+          List.any_eq_true.2 ⟨s, hmem, hbad⟩
+        rw [if_pos this]
+
+/-- non-vacuity: `[("a",2),("b",3)]` chained along `a` with `[("b",3),("a",2)]` is rejected, and so
+    is the stack of the two -/
+example :
+    (mkTensor 0 [("a", 2), ("b", 3)] (List.range 6)).bind (fun t1 =>
+      (mkTensor 1 [("b", 3), ("a", 2)] (List.range 6)).map (fun t2 =>
+        ((mkChain [t1, t2] "a").isNone, (mkStack [t1, t2] (0, "s")).isNone,
+          (mkChain [t1, t1] "a").isSome))) = some (true, true, true) := by
+  rfl
 
 end EasyMl.C10
